@@ -158,6 +158,9 @@ class CorrelationFunction(DFunction, UnitsManaged):
                 #
                 for prms in self.params:
                     
+                    # each component is dispatched on its own type
+                    ftype = prms["ftype"]
+                    
 #                    try:
 #                        ftype = params["ftype"]
 #                        
